@@ -44,6 +44,10 @@ def check(ctx):
         if setups and work and min(setups) < max(work):
             late = evs[max(work)]
             problems.add(("order", f"setup() is called before all components exist / are injected: {evs[min(setups)][1]} runs before {late[0]} {late[1]}"))
+        comp_setups = [i for i, e in enumerate(evs) if e[0] == "setup" and e[1].startswith("annotated_type#")]
+        mode_setups = [i for i, e in enumerate(evs) if e[0] == "setup" and not e[1].startswith("annotated_type#")]
+        if comp_setups and mode_setups and min(mode_setups) < max(comp_setups):
+            problems.add(("modefirst", "an autonomous mode's setup() runs before every component's setup() has run (component setup must precede any other callback)"))
         other = [e for e in evs if e[0] == "usercall"]
         for e in other:
             problems.add(("other", f"unexpected user callback {e[1]} during component creation"))
@@ -94,7 +98,20 @@ def check(ctx):
     w2 = clone(w)
     r = w2["robot"]
     it.hooks = None
+    it.generic_loop_fixed = 0
     it.call(it.getattr(r, "endCompetition"), [], {})
+
+    def run_end(itp, ww):
+        itp.generic_loop_fixed = 2
+        n0 = len(itp.trace)
+        itp.call(itp.getattr(ww["robot"], "endCompetition"), [], {})
+        return [e for e in itp.trace[n0:] if e.kind == "user" and robot.is_callback_path(e.name)]
+
+    cbs = []
+    for p in fn.all_paths(ctx, run_end, hooks=lambda: robot.RobotHooks(info), world=w):
+        if p.outcome == "return":
+            cbs += p.value
+    ctx.require(not cbs, "C06.O4", "endCompetition only requests the exit: it calls no component or robot callback", f"endCompetition() itself calls {sorted({e.name for e in cbs})[:3]}: when it is requested from inside an iteration the rest of that iteration still runs execute() on components that were already disabled", site=("magicbot/magicrobot.py", 0, "MagicRobot.endCompetition"), key="C06.O4|callbacks")
     flags = {k: r.fields.get(k) for k in info["volatile"]["MagicRobot"]}
     sel = [v for v in r.fields.values() if hasattr(v, "cls") and v.cls.name == "AutonomousModeSelector"]
     sflags = {k: sel[0].fields.get(k) for k in info["volatile"]["AutonomousModeSelector"]} if sel else {}
